@@ -259,6 +259,16 @@ def numeric_and_named_calls(ctx, rng, n):
             r = L.se23.elem(ca.DM(np.r_[0, 0, 0, 0, 0, -g_ * dt_, 0, 0, 0]))
             return np.array(ca.DM(G.exp_mixed(G.elem(ca.DM(x)), l, r, B0 * dt_).param).full()).ravel()
 
+        # the same step through the element's own method (X0.exp_mixed(l, r, B)): same value as the group-level call
+        try:
+            k0 = 0
+            l0 = L.se23.elem(ca.DM(np.r_[0, 0, 0, a[k0] * dt[k0], w[k0] * dt[k0]]))
+            r0 = L.se23.elem(ca.DM(np.r_[0, 0, 0, 0, 0, -g[k0] * dt[k0], 0, 0, 0]))
+            via_elem = np.array(ca.DM(G.elem(ca.DM(np.r_[p0[k0], v0[k0], rot[k0]])).exp_mixed(l0, r0, B0 * dt[k0]).param).full()).ravel()
+            via_group = step(np.r_[p0[k0], v0[k0], rot[k0]], a[k0], w[k0], g[k0], dt[k0])
+            ctx.check("element_method_equals_group_method", site, bool(np.array_equal(via_elem, via_group)), {"element": via_elem, "group": via_group})
+        except Exception as e:
+            ctx.check("element_method_equals_group_method", site, False, {"exception": "%s: %s" % (type(e).__name__, str(e)[:200])})
         for i in range(n):
             try:
                 X1[i] = step(np.r_[p0[i], v0[i], rot[i]], a[i], w[i], g[i], dt[i])
